@@ -83,6 +83,7 @@ PLANS = {
                           "(c08_fifo: tagged FIFO exchange A<->peer; c08_hops: a hop-header batch from the raw wire peer)",
         "budget_s": {"quick": 50, "thorough": 900},
         "scenarios": [
+            S("c01_bursts", 300, 9000, label="pair0", proto=0),
             S("c18_preconnect", 400, 12000, label="preconnect"),  # PAIR send order across a connection that comes up while messages wait
             S("c08_fifo", 1600, 48000),
             S("c08_hops", 900, 27000),
@@ -256,6 +257,7 @@ PLANS = {
                           "duplication, order and back-pressure bookkeeping was evaluated at the end of the run",
         "budget_s": {"quick": 50, "thorough": 900},
         "scenarios": [
+            S("c01_bursts", 500, 15000, label="pipeline", proto=1),  # PUSH->PULL bursts with empty messages against a receiver that is behind, every transport: none lost, none merged (round-4 seeded C06_9)
             S("c06_mesh", 1400, 27000),
             S("c06_bp", 1400, 27000),
             S("c06_churn", 900, 18000),
